@@ -28,7 +28,7 @@ func VGList() (*List[int], []int) {
 
 func VHListStep() {
 	l, pre := VGList()
-	lists.VSeqStep(l, pre, lists.VExt{
+	lists.VSeqStep(l, pre, lists.VExt{Name: "ArrayList",
 		Append:  func(vs ...int) { l.Add(vs...) },
 		Prepend: func(vs ...int) { l.Insert(0, vs...) },
 		IndexOf: l.IndexOf,
